@@ -294,8 +294,24 @@ class _UpdateSimplifier(ast.NodeTransformer):
         return node
 
 
+class _TupleIndex(ast.NodeTransformer):
+    """`(a, b, c)[1]` is `b` (a tuple built only to be taken apart again)"""
+
+    def visit_Subscript(self, node: ast.Subscript) -> ast.AST:
+        self.generic_visit(node)
+        if isinstance(node.value, (ast.Tuple, ast.List)) and isinstance(node.slice, ast.Constant) and type(node.slice.value) is int:
+            elts = node.value.elts
+            idx = node.slice.value
+            if -len(elts) <= idx < len(elts) and not any(isinstance(e, ast.Starred) for e in elts):
+                return elts[idx]
+        return node
+
+
 def _simplify_update(node: ast.expr) -> ast.expr:
-    if ".update(" not in ast.unparse(node):
+    text = ast.unparse(node)
+    if ")[" in text or "][" in text:
+        node = _TupleIndex().visit(node)
+    if ".update(" not in text:
         return node
     return _UpdateSimplifier().visit(node)
 
